@@ -888,6 +888,14 @@ class SV:
     def __hash__(self):
         return 0
 
+    def __bool__(self):
+        # truthiness of a number is "!= 0" (e.g. `if not any(nodes)`): a fork like any other comparison
+        if self.c is not None:
+            return self.c != 0
+        if Ctx.cur is None:
+            raise Concretised("truth value of a symbolic number outside an exploration")
+        return Ctx.cur.decide(self.n != 0)
+
     def __float__(self):
         if self.c is not None:
             return float(self.c)
